@@ -14,7 +14,25 @@ from .c12 import peel
 
 # reference precedence (higher binds tighter), standard SQL, shared by the six dialects for these operators
 LV_ATOM, LV_NEG, LV_MUL, LV_ADD, LV_CMP, LV_NOT, LV_AND, LV_OR = 7, 6, 5, 4, 3, 2, 1, 0
-LEVEL_NAME = {7: "atom", 6: "unary-minus", 5: "mul/div", 4: "add/sub", 3: "comparison", 2: "NOT", 1: "AND", 0: "OR/XOR"}
+LV_SHIFT = 3.5       # << >> : below + - and above the comparisons in SQLite, MySQL and PostgreSQL alike
+LEVEL_NAME = {7: "atom", 6: "unary-minus", 5: "mul/div", 4: "add/sub", 3.5: "shift", 3: "comparison", 2: "NOT", 1: "AND", 0: "OR/XOR"}
+# binary arithmetic operators by their SQL text (the members of the Arithmetic enum are read from the code on every run)
+ARITH_LEVEL = {"*": LV_MUL, "/": LV_MUL, "%": LV_MUL, "+": LV_ADD, "-": LV_ADD, "<<": LV_SHIFT, ">>": LV_SHIFT}
+
+
+def arithmetic_members(program: Program):
+    """[(member name, level)] for every member of the Arithmetic enum whose SQL text has a known level, and the
+    members that have none (a new operator needs a level before its cells can be decided)"""
+    import ast as _ast
+    c = program.cls("Arithmetic")
+    known, unknown = [], []
+    for n, e in c.class_attrs.items():
+        if n.startswith("_") or not isinstance(e, _ast.Constant) or not isinstance(e.value, str):
+            continue
+        (known if e.value in ARITH_LEVEL else unknown).append((n, ARITH_LEVEL.get(e.value), e.value))
+    if len(known) < 4:
+        raise AnalysisError(f"anchor vanished: Arithmetic members with a known level: {known}")
+    return known, unknown
 
 
 def enum_member(program: Program, cls: str, name: str) -> EnumV:
@@ -39,7 +57,7 @@ def child_kinds(program: Program) -> list[Kind]:
         Kind("negative-literal", LV_ATOM, None, lambda: Obj(program.cls("ValueWrapper"), {}, "child"), may_minus=True),
         Kind("unary-minus", LV_NEG, None, lambda: Obj(program.cls("Negative"), {}, "child"), may_minus=True),
     ]
-    for n, lv in (("mul", LV_MUL), ("div", LV_MUL), ("add", LV_ADD), ("sub", LV_ADD)):
+    for n, lv, _txt in arithmetic_members(program)[0]:
         kinds.append(Kind(n, lv, n, (lambda n=n: Obj(ae, {"operator": A(n)}, "child")), infix=True))
     kinds.append(Kind("comparison", LV_CMP, "cmp", lambda: Obj(bc, {"comparator": enum_member(program, "Equality", "eq")}, "child"), infix=True))
     kinds.append(Kind("postfix-criterion", LV_CMP, "postfix", lambda: Obj(program.cls("NullCriterion"), {}, "child"), infix=True))
@@ -61,12 +79,14 @@ def needs_parens(p_level, p_op, side, k: Kind) -> str | None:
         return "comparison operators are non-associative"
     if side == "prefix":
         return None
+    if p_level == LV_SHIFT:
+        return "a<<(b<<c) is not a<<b<<c: shifts associate to the left" if side == "right" else None
     if p_level == LV_ADD:
         if side == "right" and p_op == "sub":
             return "a-(b+c) is not a-b+c"
         return None
     if p_level == LV_MUL:
-        if side == "right" and (p_op == "div" or k.op == "div"):
+        if side == "right" and not (p_op == "mul" and k.op == "mul"):
             return "a*(b/c) is (a*b)/c without parentheses; differs in integer arithmetic" if p_op == "mul" else "a/(b*c) is not a/b*c"
         return None
     if p_level in (LV_AND, LV_OR):
@@ -135,6 +155,59 @@ def render_owner(c: ClassInfo, sk) -> str:
     return c.resolve("get_sql").cls.qualname
 
 
+def _keyword_over_statement(program: Program, c: ClassInfo, sk) -> bool:
+    """every path of the rendering is `<keyword text> <operand>` where the only operand is an attribute declared (annotation
+    / constructor) to hold statements only (Selectable subclasses, which parenthesise themselves under ctx.subquery) and is
+    rendered with subquery=True: the whole is delimited on the right by the operand's own bracket and starts with a keyword"""
+    from .c07 import _child_classes
+    sel = program.cls("Selectable")
+    n = 0
+    for flat in paths(sk):
+        flat = [p for p in flat if not (isinstance(p, Lit) and not p.text)]
+        ops = [p for p in flat if _is_operand(p)]
+        if not flat:
+            continue
+        if len(ops) != 1 or ops[0] is not flat[-1] or not isinstance(ops[0], SlotP) or not isinstance(flat[0], Lit):
+            return False
+        sp = ops[0]
+        if not (isinstance(sp.ctx, CtxV) and sp.ctx.fields.get("subquery") == Const(True)):
+            return False
+        attr = recv_path(sp.recv).split("[")[0].split(".")[0]
+        kinds = _child_classes(program, c, attr)
+        if not kinds or not all(k is sel or k.is_subclass_of(sel) for k in kinds):
+            return False
+        n += 1
+    return n > 0
+
+
+def _renders_a_bare_name(program: Program, c: ClassInfo, sp) -> bool:
+    """the slot calls a name renderer of a child (`self._window.get_name_sql(ctx)`): the method, on every class the
+    attribute is declared to hold, prints holes and literals only -- an identifier, not an expression operand"""
+    if sp.method == "get_sql":
+        return False
+    from .c07 import _child_classes
+    memo = program.__dict__.setdefault("_c06_bare_name", {})
+    attr = recv_path(sp.recv).split("[")[0].split(".")[0]
+    key = (c.qualname, attr, sp.method)
+    if key in memo:
+        return memo[key]
+    res = False
+    kinds = [k for k in _child_classes(program, c, attr) if k.resolve(sp.method) is not None]
+    if kinds:
+        res = True
+        for k in kinds:
+            try:
+                sk, _ = render(program, k, sp.method)
+            except AnalysisError:
+                res = False
+                break
+            if not isinstance(sk, Str) or any(isinstance(part, SlotP) for part, _c, _r in walk_parts(sk)):
+                res = False
+                break
+    memo[key] = res
+    return res
+
+
 # shape classification of a Term class's own rendering
 def shape_of(program: Program, c: ClassInfo):
     sk, _ = render(program, c, attrs={"alias": Const(None)}, ctx=CtxV.incoming().with_(with_alias=Const(False)))
@@ -143,6 +216,7 @@ def shape_of(program: Program, c: ClassInfo):
     for flat in paths(sk):
         flat = [p for p in flat if not (isinstance(p, Lit) and not p.text)]
         flat = [Lit("<qualifier>") if isinstance(p, SlotP) and recv_path(p.recv).split("[")[0] in QUALIFIER_ATTRS else p for p in flat]
+        flat = [Lit("<name>") if isinstance(p, SlotP) and _renders_a_bare_name(program, c, p) else p for p in flat]
         if not flat:
             shapes.add("empty")
             continue
@@ -178,7 +252,16 @@ def paths(v, limit: int = 64, opaque_leaf: bool = False, with_conds: bool = Fals
     from ..symex import Rep, JoinP, One, RepI, CondI, Opaque, negate
 
     def cross(acc, nxt):
-        return [(a + b, ca + cb) for a, ca in acc for b, cb in nxt][:limit]
+        if len(nxt) == 1:
+            b, cb = nxt[0]
+            return [(a + b, ca + cb) for a, ca in acc]
+        out = []
+        for a, ca in acc:
+            for b, cb in nxt:
+                out.append((a + b, ca + cb))
+                if len(out) >= limit:
+                    return out
+        return out
 
     def rec(x):
         if isinstance(x, Str):
@@ -230,7 +313,7 @@ def parent_table(program: Program):
     A = lambda n: enum_member(program, "Arithmetic", n)  # noqa: E731
     B = lambda n: enum_member(program, "Boolean", n)  # noqa: E731
     return {
-        "ArithmeticExpression": ("operator", [("mul", A("mul"), LV_MUL), ("div", A("div"), LV_MUL), ("add", A("add"), LV_ADD), ("sub", A("sub"), LV_ADD)]),
+        "ArithmeticExpression": ("operator", [(n, A(n), lv) for n, lv, _txt in arithmetic_members(program)[0]]),
         "ComplexCriterion": ("comparator", [("and", B("and_"), LV_AND), ("or", B("or_"), LV_OR), ("xor", B("xor_"), LV_OR)]),
         "BasicCriterion": ("comparator", [("cmp", enum_member(program, "Equality", "eq"), LV_CMP)]),
         "NestedCriterion": ("comparator", [("cmp", enum_member(program, "Equality", "eq"), LV_CMP)]),
@@ -284,6 +367,14 @@ def check(program: Program, run: Run) -> None:
     sel = program.cls("Selectable")
     kinds = child_kinds(program)
     ptab = parent_table(program)
+    # ---- step 0: every binary arithmetic operator the enum offers has a level in the reference table
+    known_ops, unknown_ops = arithmetic_members(program)
+    run.analysed = dict(getattr(run, "analysed", {}) or {})
+    run.analysed["arithmetic_operators"] = [n for n, _l, _t in known_ops]
+    for n, _lv, txt in unknown_ops:
+        run.ob("C06 every arithmetic operator has a precedence level", f"Arithmetic.{n}", False, detail=repr(txt))
+        run.finding(f"C06/unclassified-operator:Arithmetic.{n}", f"the Arithmetic enum offers `{txt}` ({n}), an operator without a level in the reference precedence table: "
+                    "its cells (as parent and as child of every other operator) cannot be decided", where=program.cls("Arithmetic").module.relpath, rule="classification")
     # ---- step 1: classification of every Term class
     class_kind = {}
     postfix_parents = []
@@ -312,6 +403,9 @@ def check(program: Program, run: Run) -> None:
             known = True
             if dc not in [p for p, _ in postfix_parents]:
                 postfix_parents.append((dc, c))
+        elif shp == "prefix" and _keyword_over_statement(program, c, sk):
+            class_kind[c.qualname] = "atom (keyword over an operand that is a statement and is rendered with subquery=True: self-delimiting like a function call)"
+            known = True
         elif shp in ("postfix", "infix", "prefix"):
             dc = render_owner(c, sk)
             class_kind[c.qualname] = f"UNCLASSIFIED {shp} operator rendered by {dc}"
